@@ -50,6 +50,12 @@ def main():
         meta["repo_head"] = sh("git -C /repo rev-parse --short HEAD")[1].strip()
         os.makedirs(os.path.join(wt, "_mutants"), exist_ok=True)
         demo_dst = os.path.join(wt, "_mutants", "demo.py")
+        # demos must import the library from the tree they are run in: hard-coded author worktree paths become "."
+        src = open(a.demo).read()
+        src = re.sub(r"/tmp/wt_C\d\d(?![\w/])", ".", src).replace('"./', '"').replace("'./", "'")
+        a.demo = os.path.join(tempfile.gettempdir(), f"demo_{a.seed_id}.py")
+        with open(a.demo, "w") as fh:
+            fh.write(src)
         shutil.copy(a.demo, demo_dst)
         denv = dict(os.environ, PYTHONPATH=wt, PYTHONDONTWRITEBYTECODE="1")
         rc0, out0 = sh("/venv/bin/python _mutants/demo.py", cwd=wt, env=denv, timeout=600)
@@ -96,8 +102,10 @@ def finish(a, meta, wt):
     if not a.no_save:
         d = os.path.join(VERIF, "seeded", a.seed_id)
         os.makedirs(d, exist_ok=True)
-        shutil.copy(a.patch, os.path.join(d, "patch.diff"))
-        shutil.copy(a.demo, os.path.join(d, "demo.py"))
+        for src, name in ((a.patch, "patch.diff"), (a.demo, "demo.py")):
+            dst = os.path.join(d, name)
+            if os.path.abspath(src) != os.path.abspath(dst):
+                shutil.copy(src, dst)
         # evidence files written against the scratch tree must not linger: restore happens via the next real run
         with open(os.path.join(d, "meta.json"), "w") as fh:
             json.dump(meta, fh, indent=1)
